@@ -363,6 +363,7 @@ def run(facts, out):
     check_end_time_separator(facts, out)
     check_line_termination(facts, out)
     check_whole_lists_written(facts, out)
+    check_timing_columns(facts, out)
     check_redundancy_tolerance(facts, out)
 
 
@@ -449,6 +450,68 @@ def check_lossless(facts, out):
 
 # K8: the end time of a spinner is its own `,`-field; the end time of a hold is the first `:`-item of
 # the sample field.  Which separator follows the end time is decided by the object's kind alone.
+def check_timing_columns(facts, out):
+    """K13: the columns of a written timing line come from the control point kind the decoder fills them into:
+    the velocity column from the difficulty point's slider velocity, the signature from the timing point, the kiai /
+    omit-first-bar flags from effect / timing point; the per-line properties are built in one place (the struct literal)
+    and not patched afterwards."""
+    from hp import Ctx, M, L, F, P, ANY, OR, CONTAINS, C, K as KC
+    adt = 'encode::ControlPointProperties'
+    ctor = None
+    for pth, h in facts.hir.items():
+        if pth.startswith('encode::'):
+            lits = []
+            H.walk(h['body'], lambda n, a: lits.append(n) if n.get('k') == 'struct' and n.get('adt') == adt and not n.get('base') else None)
+            if lits:
+                ctor = (pth, h, lits)
+    out.anchor('KT', 'ControlPointProperties literal in the encoder', ctor is not None)
+    if ctor is None:
+        return
+    pth, h, lits = ctor
+    ctx = Ctx(facts, H.binding_inits(h), h)
+    lit = lits[-1]
+    fields = {f['n']: f['e'] for f in lit['fields']}
+    point_of = lambda kind: OR(M(kind + '_point_at', ANY(), ANY()), L(kind))
+    def from_point(kind, field, default):
+        # `<kind>.map_or(DEFAULT, |point| point.<field>)` with <kind> = control_points.<kind>_point_at(time)
+        return M('map_or', VIAP(kind), OR(P(default), ANY()), CONTAINS(F(ANY(), field)))
+    class _V:
+        pass
+
+    def VIAP(kind):
+        from hp import VIA
+        return VIA(M(kind + '_point_at', ANY(), ANY()))
+    checks = [
+        ('slider_velocity', from_point('difficulty', 'slider_velocity', 'DEFAULT_SLIDER_VELOCITY'),
+         'the velocity column is not the difficulty point\'s slider velocity'),
+        ('timing_signature', CONTAINS(from_point('timing', 'time_signature', 'DEFAULT_TIME_SIGNATURE')),
+         'the signature column is not the timing point\'s time signature'),
+    ]
+    for fname, pat, why in checks:
+        e = fields.get(fname)
+        ok = e is not None and (pat.m(ctx, e))
+        out.add('KT-K13', pth, 'column-source:' + fname, 'src/encode.rs:%s' % (lit.get('ln') or 0), ok,
+                '' if ok else why + ' (a value of another control point kind would be read back into the wrong field)', ordinal=False)
+    # no field of the per-line properties is patched after construction
+    patched = []
+    for p2, h2 in facts.hir.items():
+        if not p2.startswith('encode::'):
+            continue
+
+        def v(n, anc):
+            if n.get('k') in ('assign', 'assignop'):
+                l = n['l']
+                if isinstance(l, dict) and l.get('k') == 'field':
+                    bty = (H.peel(l['e']).get('ty') or '')
+                    if bty.replace('&mut ', '').replace('&', '') == adt:
+                        patched.append((p2, l.get('n'), n.get('ln')))
+        H.walk(h2['body'], v)
+    ok = not patched
+    out.add('KT-K13', pth, 'properties-built-once', 'src/encode.rs', ok,
+            '' if ok else 'the per-line property `%s` is overwritten after it was derived from the control points (%s line %s)'
+            % (patched[0][1], patched[0][0], patched[0][2]), ordinal=False)
+
+
 END_SEP = {'Spinner': ',', 'Hold': ':'}
 
 
